@@ -287,6 +287,9 @@ def stringsSplitN2 (s sep : Bytes) : List Bytes :=
 /-- `int(d.Seconds())` (see `durSecondsU32`). -/
 def durSecondsInt (d : Int) : Int := Int.tdiv d 1000000000
 
+/-- `a % b` on `int`/`int64` with a divisor that is not a constant: zero is a Go panic. -/
+def remInt (a b : Int) (site : String) : R Int := if b = 0 then throw (.panic site) else pure (Int.tmod a b)
+
 /-- A socket handle: what is read from and written to it goes through the environment. -/
 abbrev Sock := Unit
 
